@@ -163,6 +163,12 @@ def run_property(ctx, mod, units, t0):
             continue
         seen_known.add(key)
         lines.append("KNOWN-FINDING: property=%s %s" % (prop, k["what"]))
+    # open findings of this property that did not show in this run (schedule dependent ones, or units skipped with --only) are still listed
+    if not ctx.partial:
+        for k in known:
+            if k.get("status") == "open" and k["property"] == prop and (k["match"], k.get("unit")) not in seen_known:
+                seen_known.add((k["match"], k.get("unit")))
+                lines.append("KNOWN-FINDING: property=%s %s (listed; did not show in this run)" % (prop, k["what"]))
     nviol = 0
     if internal:
         for name, err in internal:
